@@ -2,13 +2,14 @@
 from __future__ import annotations
 
 import ast
+import functools
+import operator
 import re
 import struct
 
-from ..cfg import CFG
 from ..core import Ctx
-from ..match import arg, call_name, calls, single_def
-from ..model import NOCONST, AnalysisError, ClassInfo, FuncInfo, chain, const_value, norm, strip_cast, walk_no_nested
+from ..match import arg, call_name, calls, local_defs, rchain, resolve, single_def
+from ..model import NOCONST, AnalysisError, ClassInfo, FuncInfo, ancestors, chain, const_value, enclosing_stmt, norm, strip_cast, walk_no_nested
 
 SER = "ipv8/messaging/serialization.py"
 
@@ -60,6 +61,7 @@ class PackerModel:
         self.cls = cls
         self.size_attr: dict[str, str] = {}      # self.length_size -> "size(self.length_format)"
         self.fmt_attr: set[str] = set()
+        self.struct_attr: dict[str, ast.AST | str] = {}   # self.X = Struct(fmt)  ->  X: fmt (constant node, or "self.<attr>" text)
         init = cls.lookup("__init__")
         if init is not None and init.cls.name not in ("Packer", "object"):
             for k in cls.mro():
@@ -78,12 +80,37 @@ class PackerModel:
                             self.size_attr[a] = f"size({self._fmt_text(src, stored)})"
                         if isinstance(v, ast.Call) and chain(v.func) in ("calcsize", "struct.calcsize"):
                             self.size_attr[a] = f"size({self._fmt_text(v.args[0], stored)})"
+                        if isinstance(v, ast.Call) and chain(v.func) in ("Struct", "struct.Struct") and len(v.args) == 1:
+                            self.struct_attr[a] = v.args[0] if isinstance(const_value(v.args[0]), str) else self._fmt_text(v.args[0], stored)
+                        if isinstance(v, ast.Attribute) and chain(v) and chain(v).startswith("self.") and chain(v).count(".") == 2 and v.attr == "size" \
+                                and v.value.attr in self.struct_attr:
+                            self.size_attr[a] = self.struct_size_text(v.value.attr)
 
     @staticmethod
     def _fmt_text(e: ast.AST, stored: dict[str, str]) -> str:
         if isinstance(e, ast.Name) and e.id in stored:
             return f"self.{stored[e.id]}"
         return norm(e)
+
+    def struct_fmt_text(self, attr: str) -> str:
+        """Format of the precompiled struct self.<attr>, as the text an inline unpack_from(fmt, ..) would show."""
+        f = self.struct_attr[attr]
+        return f if isinstance(f, str) else (const_value(f) if isinstance(const_value(f), str) else norm(f))
+
+    def struct_size_text(self, attr: str) -> str:
+        return f"size({self.struct_fmt_text(attr)})"
+
+    def struct_size(self, attr: str) -> Lin:
+        f = self.struct_attr[attr]
+        if not isinstance(f, str) and isinstance(const_value(f), str):
+            return Lin(struct.calcsize(const_value(f)))
+        return Lin.sym(self.struct_size_text(attr))
+
+    def struct_of(self, e: ast.AST) -> str | None:
+        """attr name X if e is `self.X` and X holds a precompiled Struct."""
+        if isinstance(e, ast.Attribute) and isinstance(e.value, ast.Name) and e.value.id == "self" and e.attr in self.struct_attr:
+            return e.attr
+        return None
 
     def fmt_size(self, e: ast.AST) -> Lin:
         cv = const_value(e)
@@ -104,7 +131,26 @@ class UnpackRun:
         self.reads: list[tuple[Lin, Lin, str]] = []
         self.wire: dict[str, str] = {}          # local name -> description of the wire value
         self.ret: Lin | None = None
+        self.ret_node: ast.Return | None = None
         self.fresh = 0
+        self.read_of: dict[int, int] = {}       # id(unpack_from call) -> index into self.reads
+        self.tuples: dict[str, int] = {}        # local bound to the whole tuple of a struct read -> read index
+        self.loops: list[tuple[ast.For, Lin | None]] = []    # for-loops entered on this path and the linear form of `range(N)`'s N
+        self.seen: list[ast.AST] = []           # every expression evaluated on this path (for per-path call inventories)
+        self.delegates: list[ast.Call] = []     # delegated unpack calls in the order they consume bytes
+
+    def wsym(self, read: int, index: int) -> Lin:
+        """Symbol of value `index` of struct read number `read` (named by position of the read, not by the local it is stored in)."""
+        return Lin.sym(f"wire{read}[{index}]")
+
+    def wire_tuple(self, e: ast.AST) -> int | None:
+        """Read index if e evaluates to the whole value tuple of an unpack_from on the data buffer."""
+        e = strip_cast(e)
+        if isinstance(e, ast.Call) and id(e) in self.read_of:
+            return self.read_of[id(e)]
+        if isinstance(e, ast.Name) and e.id in self.tuples:
+            return self.tuples[e.id]
+        return None
 
     def lin(self, e: ast.AST) -> Lin:
         e = strip_cast(e)
@@ -114,12 +160,22 @@ class UnpackRun:
         if isinstance(e, ast.Name):
             if e.id in self.env:
                 return self.env[e.id]
+            if e.id not in self.fi.params() and not local_defs(self.fi, e.id):
+                c = self.pm.ctx.repo.resolve_const(self.fi.module, e, self.fi.cls)      # module-level integer constant
+                if isinstance(c, int) and not isinstance(c, bool):
+                    return Lin(c)
             raise Unknown(f"name {e.id}")
+        if isinstance(e, ast.Attribute) and e.attr == "size" and self.pm.struct_of(e.value) is not None:
+            return self.pm.struct_size(self.pm.struct_of(e.value))
         if isinstance(e, ast.Attribute) and chain(e) and chain(e).startswith("self."):
             a = e.attr
-            if a in self.pm.size_attr:
-                return Lin.sym(self.pm.size_attr[a])
+            if a in self.pm.size_attr and chain(e).count(".") == 1:
+                v = self.pm.size_attr[a]
+                m = re.fullmatch(r"size\('([^']*)'\)", v)
+                return Lin(struct.calcsize(m.group(1))) if m else Lin.sym(v)
             return Lin.sym(chain(e))
+        if isinstance(e, ast.Call) and chain(e.func) in ("calcsize", "struct.calcsize") and len(e.args) == 1:
+            return self.pm.fmt_size(e.args[0])
         if isinstance(e, ast.BinOp):
             if isinstance(e.op, ast.Add):
                 return self.lin(e.left) + self.lin(e.right)
@@ -136,22 +192,50 @@ class UnpackRun:
                     return Lin(0, {"*".join(sorted([a, b])): ca * cb})
         if isinstance(e, ast.Call) and chain(e.func) == "len" and chain(e.args[0]) == self.data:
             return Lin.sym("len(data)")
+        if isinstance(e, ast.Subscript) and not isinstance(e.slice, ast.Slice):
+            r, i = self.wire_tuple(e.value), const_value(e.slice)
+            if r is not None and isinstance(i, int) and not isinstance(i, bool) and i >= 0:
+                return self.wsym(r, i)
         raise Unknown(f"expression `{norm(e)[:50]}`")
 
     def scan_reads(self, e: ast.AST) -> None:
         """Record unpack_from calls and slices of the data buffer inside an expression (in source order)."""
+        self.seen.append(e)
         nodes = sorted((n for n in ast.walk(e) if isinstance(n, (ast.Call, ast.Subscript))), key=lambda n: (n.lineno, n.col_offset))
         for n in nodes:
             if isinstance(n, ast.Call) and chain(n.func) in ("unpack_from", "struct.unpack_from") and chain(arg(n, 1)) == self.data:
                 off = arg(n, 2, "offset")
                 start = self.lin(off) if off is not None else Lin(0)
+                self.read_of[id(n)] = len(self.reads)
                 self.reads.append((start, self.pm.fmt_size(n.args[0]), "struct:" + (const_value(n.args[0]) if isinstance(const_value(n.args[0]), str) else norm(n.args[0]))))
+            elif isinstance(n, ast.Call) and isinstance(n.func, ast.Attribute) and n.func.attr == "unpack_from" and self.pm.struct_of(n.func.value) is not None \
+                    and chain(arg(n, 0, "buffer")) == self.data:
+                x = self.pm.struct_of(n.func.value)
+                off = arg(n, 1, "offset")
+                start = self.lin(off) if off is not None else Lin(0)
+                self.read_of[id(n)] = len(self.reads)
+                self.reads.append((start, self.pm.struct_size(x), "struct:" + self.pm.struct_fmt_text(x)))
             elif isinstance(n, ast.Subscript) and isinstance(n.slice, ast.Slice) and chain(n.value) == self.data:
                 lo = self.lin(n.slice.lower) if n.slice.lower is not None else Lin(0)
                 if n.slice.upper is None:
                     self.reads.append((lo, Lin.sym("len(data)") - lo, "rest"))
                 else:
                     self.reads.append((lo, self.lin(n.slice.upper) - lo, "bytes"))
+
+    def enter_loop(self, loop: ast.For) -> None:
+        """The body of `for .. in range(N)` is entered: remember N as a linear form (None when it is not one)."""
+        it = strip_cast(loop.iter)
+        n = None
+        if isinstance(it, ast.Call) and chain(it.func) == "range" and len(it.args) == 1 and not it.keywords:
+            try:
+                n = self.lin(it.args[0])
+            except Unknown:
+                n = None
+        self.loops.append((loop, n))
+        for t in ast.walk(loop.target):
+            if isinstance(t, ast.Name):
+                self.env.pop(t.id, None)
+                self.tuples.pop(t.id, None)
 
     def define_wire(self, targets: list[str], value: ast.AST) -> None:
         for t in targets:
@@ -180,6 +264,8 @@ class UnpackRun:
                 self.fresh += 1
                 end = Lin.sym(f"delegate{self.fresh}")
                 self.reads.append((start, end - start, "delegate:" + norm(core.func)))
+                self.delegates.append(core)
+                self.seen.append(v)
                 names = [norm(e) for e in tg.elts] if isinstance(tg, ast.Tuple) else [norm(tg)]
                 # which target receives the new offset: the last element of a tuple, or the single target
                 self.env[names[-1]] = end
@@ -187,22 +273,30 @@ class UnpackRun:
                     self.env.pop(nm, None)
                 return
             self.scan_reads(v)
-            names = [norm(e) for e in tg.elts] if isinstance(tg, ast.Tuple) else [norm(tg)]
-            has_unpack = any(isinstance(n, ast.Call) and chain(n.func) in ("unpack_from", "struct.unpack_from") for n in ast.walk(v))
-            if has_unpack:
-                # value derived from the wire, possibly scaled by a unit
-                if isinstance(core, ast.BinOp) and isinstance(core.op, ast.Mult) and len(names) == 1:
-                    unit = core.right if any(isinstance(n, ast.Call) for n in ast.walk(core.left)) else core.left
-                    self.env[names[0]] = Lin(0, {f"w:{names[0]}*{norm(unit)}": 1})
-                    self.wire[names[0]] = f"count*{norm(unit)}"
+            names = [norm(e) for e in tg.elts] if isinstance(tg, (ast.Tuple, ast.List)) else [norm(tg)]
+            for nm in names:
+                self.tuples.pop(nm, None)
+            r = self.wire_tuple(core)
+            if r is not None:
+                # the target(s) receive the value tuple of one struct read: `a, b = unpack_from(..)` / `t = unpack_from(..)`
+                if isinstance(tg, (ast.Tuple, ast.List)):
+                    for i, nm in enumerate(names):
+                        self.env[nm] = self.wsym(r, i)
+                        self.wire[nm] = f"wire{r}[{i}]"
                 else:
-                    self.define_wire(names, v)
+                    self.env.pop(names[0], None)
+                    self.tuples[names[0]] = r
                 return
             if len(names) == 1:
                 try:
-                    self.env[names[0]] = self.lin(v)
+                    self.env[names[0]] = self.lin(v)        # also `unpack_from(..)[0] * self.base`, `count * self.base`, `offset + self.size`
+                    if any(k.startswith("wire") for k in self.env[names[0]].t):
+                        self.wire[names[0]] = str(self.env[names[0]])
                 except Unknown:
                     self.env.pop(names[0], None)
+            else:
+                for nm in names:
+                    self.env.pop(nm, None)
             return
         if isinstance(s, ast.AugAssign) and isinstance(s.target, ast.Name):
             if isinstance(s.op, ast.Add) and s.target.id in self.env:
@@ -215,6 +309,7 @@ class UnpackRun:
         if isinstance(s, ast.Return):
             self.scan_reads(s.value) if s.value is not None else None
             self.ret = self.lin(s.value)
+            self.ret_node = s
             return
         if isinstance(s, ast.Expr):
             self.scan_reads(s.value)
@@ -239,6 +334,8 @@ def run_unpack_paths(ctx: Ctx, pm: PackerModel, fi: FuncInfo):
                     run.stmt(node.ast)
                 elif node.kind == "cond" and node.ast is not None:
                     run.scan_reads(node.ast)
+                elif node.kind == "loop" and isinstance(node.ast, ast.For) and lab is True:
+                    run.enter_loop(node.ast)
         except Unknown as u:
             out.append((run, f"unknown: {u}"))
             continue
@@ -260,7 +357,7 @@ def check_tiling(run: UnpackRun) -> str | None:
 
 
 # ------------------------------------------------------------------------------------------ pack side
-def pack_pieces(fi: FuncInfo):
+def pack_pieces(fi: FuncInfo, pm: PackerModel | None = None):
     """Pieces written by a pack method: list of alternatives, each a list of ('struct', fmt_text, [arg texts]) / ('bytes', text) / ('delegate', text)."""
     alts = []
     for r in [r for r in walk_no_nested(fi.node) if isinstance(r, ast.Return) and r.value is not None]:
@@ -275,18 +372,61 @@ def pack_pieces(fi: FuncInfo):
             if isinstance(e, ast.Call) and chain(e.func) in ("pack", "struct.pack"):
                 f = e.args[0]
                 ft = const_value(f) if isinstance(const_value(f), str) else ("".join(v.value if isinstance(v, ast.Constant) else "{n}" for v in f.values) if isinstance(f, ast.JoinedStr) else norm(f))
-                pieces.append(("struct", ft, [norm(a) for a in e.args[1:]]))
+                pieces.append(("struct", ft, [norm(a) for a in e.args[1:]], list(e.args[1:])))
+                return
+            if pm is not None and isinstance(e, ast.Call) and isinstance(e.func, ast.Attribute) and e.func.attr == "pack" and pm.struct_of(e.func.value) is not None:
+                pieces.append(("struct", pm.struct_fmt_text(pm.struct_of(e.func.value)), [norm(a) for a in e.args], list(e.args)))
                 return
             if isinstance(e, ast.Name) and single_def(fi, e.id) is not None and e.id not in fi.params():
                 flat(single_def(fi, e.id)[0])
                 return
             if isinstance(e, ast.Call) and call_name(e) in ("pack", "pack_serializable") and not chain(e.func) in ("pack", "struct.pack"):
-                pieces.append(("delegate", norm(e)))
+                pieces.append(("delegate", norm(e), e))
                 return
             pieces.append(("bytes", norm(e)))
         flat(r.value)
         alts.append(pieces)
     return alts
+
+
+def _len_unit(fi: FuncInfo, e: ast.AST):
+    """('len', unit) when e is `len(<the packed value>)` (unit '1') or `len(<the packed value>) // U` (unit = text of U); else the text of e."""
+    e = resolve(fi, e)
+    unit = "1"
+    if isinstance(e, ast.BinOp) and isinstance(e.op, ast.FloorDiv):
+        unit = norm(e.right)
+        e = resolve(fi, e.left)
+    a = fi.node.args
+    value_params = [p.arg for p in a.args][1:] + ([a.vararg.arg] if a.vararg else [])
+    if isinstance(e, ast.Call) and chain(e.func) == "len" and len(e.args) == 1 and chain(resolve(fi, e.args[0])) in value_params:
+        return ("len", unit)
+    return norm(e)
+
+
+def _addr_conversions(exprs, run) -> set:
+    """(strictness, family, operand) of every inet_* conversion inside the expressions; operand (unpack side only) says whether the
+    converted bytes are one whole struct field read from the wire."""
+    out = set()
+    for e in exprs:
+        for c in ast.walk(e):
+            if not isinstance(c, ast.Call):
+                continue
+            n = call_name(c)
+            if n in ("inet_aton", "inet_ntoa") and c.args:
+                fam, operand = ("legacy", "AF_INET"), c.args[0]
+            elif n in ("inet_pton", "inet_ntop") and len(c.args) >= 2:
+                fam, operand = ("strict", (chain(c.args[0]) or norm(c.args[0])).split(".")[-1]), c.args[1]
+            else:
+                continue
+            whole = "whole-field"
+            if run is not None:
+                try:
+                    v = run.lin(operand)
+                    whole = "whole-field" if (not v.c and len(v.t) == 1 and next(iter(v.t)).startswith("wire") and next(iter(v.t.values())) == 1) else "derived"
+                except Unknown:
+                    whole = "derived"
+            out.add((*fam, whole))
+    return out
 
 
 def _struct_chars(fmt: str) -> str:
@@ -316,7 +456,7 @@ def rule_packer_symmetry(ctx: Ctx) -> None:
             ctx.check(msg is None, "packer-symmetry", un, un.node, f"{cls.name}.unpack path [{layout}] -> returns {run.ret}: reads tile [offset, return)",
                       f"{cls.name}.unpack: {msg}: the reported end offset is not the absolute end of what was consumed (path [{layout}], returns {run.ret})")
         # ---- layout agreement with pack
-        alts = pack_pieces(pk)
+        alts = pack_pieces(pk, pm)
         un_structs = [[k[len("struct:"):] for _, _, k in run.reads if k.startswith("struct:")] for run, _ in runs]
         if cls.name in ("Bits", "Raw", "NestedPayload", "NodePacker", "VarLenUtf8", "ListOf", "IPv4", "Address", "DefaultStruct", "VarLen", "DefaultArray", "Flags"):
             _layout_agreement(ctx, cls, pk, un, alts, runs)
@@ -368,30 +508,63 @@ def _layout_agreement(ctx: Ctx, cls: ClassInfo, pk: FuncInfo, un: FuncInfo, alts
               f"{cls.name}: pack writes {packs} but unpack reads {unpacks}: the decoder is not the inverse of the encoder")
     # ---- unit of the length prefix
     if cls.name in ("VarLen", "DefaultArray"):
-        lens = [p[2][0] for a in alts for p in a if p[0] == "struct" and p[2]]
-        mult = {v for r, _ in runs for v in r.wire.values() if v.startswith("count*")}
+        # pack: the prefix counts len(data) in units of U;  unpack: the bytes taken after the prefix number (prefix value) * U
+        lens = [_len_unit(pk, p[3][0]) for a in alts for p in a if p[0] == "struct" and p[3]]
+        mult = set()
+        shape_ok = True
+        for r, _ in runs:
+            kinds = [k for _, _, k in r.reads]
+            if kinds != ["struct:self.length_format", "bytes"] or r.reads[0][0] != Lin.sym("offset"):
+                shape_ok = False
+                continue
+            mult.add(str(r.reads[1][1]))
+        want_unit = str(Lin(0, {"*".join(sorted(["self.base", "wire0[0]"])): 1}))
         if cls.name == "VarLen":
-            ok = lens == ["len(data) // self.base"] and mult == {"count*self.base"}
+            ok = lens == [("len", "self.base")] and shape_ok and mult == {want_unit}
             ctx.check(ok, "packer-symmetry", pk, pk.node, "VarLen: prefix = len(data) // base on pack, length = prefix * base on unpack",
-                      f"VarLen: length unit differs between pack ({lens}) and unpack ({sorted(mult)})")
+                      f"VarLen: length unit differs between pack ({lens}) and unpack (bytes taken: {sorted(mult)})")
         else:
-            ok = lens == ["len(data)"] and mult == {"count*self.base"}
+            ok = lens == [("len", "1")] and shape_ok and mult == {want_unit}
             init = cls.methods["__init__"]
             b = [s for s in walk_no_nested(init.node) if isinstance(s, ast.Assign) and chain(s.targets[0]) == "self.base"]
             ok = ok and len(b) == 1 and norm(b[0].value) == "array(self.real_format_str).itemsize"
             ctx.check(ok, "packer-symmetry", pk, pk.node, "DefaultArray: prefix = item count, byte length = count * itemsize",
-                      f"DefaultArray: item count / byte length units differ between pack ({lens}) and unpack ({sorted(mult)})")
+                      f"DefaultArray: item count / byte length units differ between pack ({lens}) and unpack (bytes taken: {sorted(mult)})")
     if cls.name == "ListOf":
-        cnt = [p[2][0] for a in alts for p in a if p[0] == "struct" and p[2]]
-        loops = [l for l in walk_no_nested(un.node) if isinstance(l, ast.For)]
-        ok = cnt == ["len(data)"] and len(loops) == 1 and norm(loops[0].iter) == "range(length)" and "length" in [k for r, _ in runs for k in r.wire]
-        inner = [c for c in calls(un) if chain(c.func) == "self.packer.unpack"]
-        ok = ok and len(inner) == 1 and [norm(a) for a in inner[0].args[:2]] == [un.params()[1], un.params()[2]]
+        cnt = [_len_unit(pk, p[3][0]) for a in alts for p in a if p[0] == "struct" and p[3]]
+        # the count read with the length format drives the one loop; the inner packer is run on the threaded offset
+        odd = [l for l in walk_no_nested(un.node) if isinstance(l, (ast.While, ast.AsyncFor))
+               or (isinstance(l, ast.For) and not (isinstance(strip_cast(l.iter), ast.Call) and chain(strip_cast(l.iter).func) == "range"))]
+        if odd:
+            raise AnalysisError(f"undecided: packer-symmetry: ListOf.unpack repeats the inner packer with `{norm(odd[0])[:60]}`; only `for .. in range(count)` is decided")
+        looped = [r for r, _ in runs if r.loops]
+        ok = cnt == [("len", "1")] and bool(looped)
+        for r, _ in runs:
+            if not r.reads or r.reads[0][2] != "struct:self.length_format" or r.reads[0][0] != Lin.sym("offset"):
+                ok = False
+            if len({id(l) for l, _ in r.loops}) > 1 or any(n != r.wsym(0, 0) for _, n in r.loops):
+                ok = False
+        inner = [c for c in calls(un) if call_name(c) == "unpack" and isinstance(c.func, ast.Attribute) and rchain(un, c.func.value) == "self.packer"]
+        ok = ok and len(inner) == 1 and len(inner[0].args) >= 2 and chain(inner[0].args[0]) == un.params()[1] and isinstance(inner[0].args[1], ast.Name)
+        if ok:
+            # threaded: the new offset returned by the inner packer is stored in the very variable that is passed as its offset
+            st = enclosing_stmt(inner[0])
+            ok = isinstance(st, ast.Assign) and strip_cast(st.value) is inner[0] and [chain(t) for t in st.targets] == [inner[0].args[1].id] \
+                and any(isinstance(a, ast.For) for a in ancestors(inner[0]))
         ctx.check(ok, "packer-symmetry", un, un.node, "ListOf: count prefix = number of items; the inner packer runs count times on the threaded offset",
                   "ListOf: the item count on the wire does not drive the number of inner unpacks / the offset is not threaded")
     if cls.name == "VarLenUtf8":
-        enc = any(norm(c) == "super().pack(data.encode())" for c in calls(pk))
-        dec = any(norm(c).endswith(".decode()") for c in calls(un)) and any(norm(c).startswith("super().unpack(") for c in calls(un))
+        def utf8_call(fi, c, meth):
+            """c is `<x>.encode()` / `<x>.decode()` with the default (or an explicit utf-8) codec."""
+            return isinstance(c, ast.Call) and isinstance(c.func, ast.Attribute) and c.func.attr == meth and not c.keywords \
+                and (not c.args or (len(c.args) == 1 and str(const_value(c.args[0])).lower().replace("-", "") == "utf8"))
+        value_param = pk.params()[1]
+        enc = False
+        for c in calls(pk):
+            if chain(c.func) == "super().pack" and len(c.args) == 1:
+                a = resolve(pk, c.args[0])
+                enc = enc or (utf8_call(pk, a, "encode") and chain(resolve(pk, a.func.value)) == value_param)
+        dec = any(utf8_call(un, c, "decode") for c in calls(un)) and any(chain(c.func) == "super().unpack" for c in calls(un))
         ctx.check(enc and dec, "packer-symmetry", pk, pk.node, "VarLenUtf8: encode() on pack, decode() on unpack around VarLen", "VarLenUtf8 does not pair encode/decode around VarLen")
     if cls.name == "Address":
         consts = ctx.repo.module(SER).constants
@@ -400,16 +573,49 @@ def _layout_agreement(ctx: Ctx, cls: ClassInfo, pk: FuncInfo, un: FuncInfo, alts
         tags_p = sorted(p[2][0] for a in alts for p in a if p[0] == "struct")
         ctx.check(ok and tags_p == sorted(vals), "packer-symmetry", pk, pk.node, f"Address: three distinct type tags {vals}, each written by one pack branch",
                   f"Address: type tags {vals} / written {tags_p}")
-        # each unpack branch is selected by the tag that the matching pack branch writes
+        # each unpack branch is selected by the tag that the matching pack branch writes, and reads the layout that branch wrote
         cfg = ctx.cfg(un)
         from ..match import facts_at
-        pairs = {}
-        for r in [r for r in walk_no_nested(un.node) if isinstance(r, ast.Return)]:
-            for f in facts_at(cfg, r):
-                if f.op == "eq" and f.pos and norm(f.left) == "address_type":
-                    pairs[norm(f.right)] = norm(r.value)
-        want = {"ADDRESS_TYPE_IPV4": "offset + 7", "ADDRESS_TYPE_IPV6": "offset + 19", "ADDRESS_TYPE_DOMAIN_NAME": "offset + 5 + length"}
-        ctx.check(pairs == want, "packer-symmetry", un, un.node, "Address.unpack: tag -> consumed size (7 / 19 / 5+len)", f"Address.unpack tag/size pairing is {pairs}")
+
+        def tag_of(run):
+            """Name of the tag constant the first byte (struct '>B' at offset) is known to equal when this path returns."""
+            if run.ret_node is None or not run.reads or run.reads[0][0] != Lin.sym("offset") or _struct_chars(run.reads[0][2][len("struct:"):]) != "B":
+                return None
+            tags = set()
+            for f in facts_at(cfg, run.ret_node):
+                if f.op != "eq" or not f.pos:
+                    continue
+                for x, y in ((f.left, f.right), (f.right, f.left)):
+                    try:
+                        is_tag_byte = run.lin(x) == run.wsym(0, 0)
+                    except Unknown:
+                        is_tag_byte = False
+                    if is_tag_byte and chain(y) in vals:
+                        tags.add(chain(y))
+            return tags.pop() if len(tags) == 1 else None
+        layout_p = {p[2][0]: chars_of_pack(a) for a in alts for p in a[:1] if p[0] == "struct" and p[2]}
+        layout_u: dict = {}
+        conv_u: dict = {}
+        untagged = 0
+        for r, _ in runs:
+            t = tag_of(r)
+            if t is None:
+                untagged += 1
+                continue
+            # "B" "4sH" -> "B4sH";  "B" "H" "{n}s" "H" -> "BH{n}sH"
+            layout_u.setdefault(t, set()).add(chars_of_run(r))
+            conv_u.setdefault(t, set()).update(_addr_conversions(r.seen, r))
+        sizes = {t: sorted(str(r.ret - Lin.sym("offset")) for r, _ in runs if tag_of(r) == t) for t in layout_u}
+        ok = untagged == 0 and {t: {v} for t, v in layout_p.items()} == layout_u
+        ctx.check(ok, "packer-symmetry", un, un.node, f"Address.unpack: every returning path is selected by one tag and reads the layout pack writes for that tag {layout_p} (sizes {sizes})",
+                  f"Address.unpack tag/layout pairing is { {t: sorted(v) for t, v in layout_u.items()} } ({untagged} returning paths without a tag), pack writes {layout_p}")
+        # per tag, the text conversion is the inverse partner of the one pack used for that tag, applied to the whole field: what was decoded
+        # under tag T must be encoded under tag T again (pack chooses the tag by which inet_pton family accepts the host string)
+        conv_p = {p[2][0]: _addr_conversions(p[3], None) for a in alts for p in a[:1] if p[0] == "struct" and p[2]}
+        for t in sorted(set(conv_p) | set(conv_u)):
+            ctx.check(conv_p.get(t) == conv_u.get(t), "packer-symmetry", un, f"Address tag {t}", f"Address tag {t}: unpack converts with {sorted(conv_u.get(t, ()))} = partner of pack",
+                      f"Address.unpack under tag {t} converts the host with {sorted(conv_u.get(t, ()))} but Address.pack writes tag {t} for hosts accepted by "
+                      f"{sorted(conv_p.get(t, ()))}: the decoded address is not the one that was encoded (re-encoding it selects another tag / other bytes)")
     if cls.name in ("Address", "IPv4"):
         # text<->binary address conversion must use inverse partners on both sides (inet_aton accepts legacy notations that inet_pton rejects,
         # so probing with it turns numeric-looking host names into IPv4 addresses)
@@ -427,11 +633,427 @@ def _layout_agreement(ctx: Ctx, cls: ClassInfo, pk: FuncInfo, un: FuncInfo, alts
                   f"{cls.name}: pack converts addresses with {sorted(cp)} but unpack with {sorted(cu)}: the probe accepts strings the decoder would never produce "
                   "(e.g. inet_aton accepts '10.1'), so a domain name is written as an IPv4 address")
     if cls.name == "NodePacker":
-        p = [norm(c.args[0]) for c in calls(pk) if call_name(c) == "pack"]
-        u = [norm(c.args[0]) for c in calls(un) if call_name(c) == "unpack"]
-        ctx.check(p == u and len(p) == 2, "packer-symmetry", pk, pk.node, f"NodePacker: packs {p} and unpacks {u} in the same order", f"NodePacker packs {p} but unpacks {u}")
+        # formats in the order their bytes are concatenated (pack) / consumed (unpack), whatever the order of the statements
+        p = sorted({tuple(repr(const_value(x[2].args[0])) if x[0] == "delegate" and x[2].args else "?" for x in a) for a in alts})
+        u = sorted({tuple(repr(const_value(c.args[0])) if c.args else "?" for c in r.delegates) for r, _ in runs})
+        ctx.check(p == u and len(p) == 1 and len(p[0]) == 2, "packer-symmetry", pk, pk.node, f"NodePacker: packs {p} and unpacks {u} in the same order", f"NodePacker packs {p} but unpacks {u}")
     if cls.name == "Flags":
         p = [c for c in calls(pk, "pack")]
         u = [c for c in calls(un, "unpack_from")]
-        ok = len(p) == 1 and len(u) == 1 and norm(p[0].args[0]) == norm(u[0].args[0]) == "self.format"
+        ok = len(p) == 1 and len(u) == 1 and rchain(pk, p[0].args[0]) == rchain(un, u[0].args[0]) == "self.format"
         ctx.check(ok, "packer-symmetry", pk, pk.node, "Flags: same struct format on both sides", "Flags packs and unpacks with different formats")
+
+
+# ------------------------------------------------------------------------------------------ concrete mini-interpreter
+class MiniUndecided(Exception):
+    """Syntax / call outside the supported subset: the caller turns this into an AnalysisError (never into a verdict)."""
+
+
+class MiniRaised(Exception):
+    """The interpreted function raised (explicit `raise`, or a Python error of one of its own operations)."""
+
+
+class _Ret(Exception):
+    def __init__(self, value) -> None:
+        self.value = value
+
+
+class _Brk(Exception):
+    pass
+
+
+class _Cont(Exception):
+    pass
+
+
+class Opaque:
+    """A value the interpreted code may pass around and read attributes of, but not compute with."""
+
+    def __init__(self, label: str, attrs: dict | None = None) -> None:
+        self.label = label
+        self.attrs = attrs or {}
+
+    def __repr__(self) -> str:
+        return f"<{self.label}>"
+
+
+_BIN = {ast.Add: operator.add, ast.Sub: operator.sub, ast.Mult: operator.mul, ast.FloorDiv: operator.floordiv, ast.Mod: operator.mod,
+        ast.BitOr: operator.or_, ast.BitAnd: operator.and_, ast.BitXor: operator.xor, ast.LShift: operator.lshift, ast.RShift: operator.rshift,
+        ast.Pow: operator.pow}
+_IBIN = {ast.Add: operator.iadd, ast.Sub: operator.isub, ast.Mult: operator.imul, ast.FloorDiv: operator.ifloordiv, ast.Mod: operator.imod,
+         ast.BitOr: operator.ior, ast.BitAnd: operator.iand, ast.BitXor: operator.ixor, ast.LShift: operator.ilshift, ast.RShift: operator.irshift,
+         ast.Pow: operator.ipow}
+_CMP = {ast.Eq: operator.eq, ast.NotEq: operator.ne, ast.Lt: operator.lt, ast.LtE: operator.le, ast.Gt: operator.gt, ast.GtE: operator.ge,
+        ast.Is: operator.is_, ast.IsNot: operator.is_not, ast.In: lambda a, b: a in b, ast.NotIn: lambda a, b: a not in b}
+_BUILTINS = {"bool": bool, "int": int, "len": len, "range": range, "list": list, "tuple": tuple, "enumerate": enumerate, "zip": zip,
+             "reversed": reversed, "sum": sum, "any": any, "all": all, "filter": filter, "map": map, "min": min, "max": max, "sorted": sorted,
+             "bytes": bytes, "abs": abs, "divmod": divmod, "reduce": functools.reduce, "functools.reduce": functools.reduce, "dict": dict,
+             "set": set, "frozenset": frozenset, "str": str, "isinstance": None}
+_PLAIN = (int, bool, str, bytes, tuple, list, dict, set, frozenset, type(None), range)
+_METHODS = {list: {"append", "extend", "insert", "index", "count", "pop", "reverse", "copy"}, tuple: {"index", "count"},
+            dict: {"get", "items", "keys", "values", "setdefault", "pop", "copy"}, bytes: {"join", "startswith", "endswith", "decode", "hex"},
+            str: {"join", "startswith", "endswith", "encode", "lower", "upper"}, int: {"to_bytes", "bit_length"}, set: {"add", "discard"}}
+
+
+class Mini:
+    """
+    Concrete interpreter for tiny, loop-bounded functions of /repo.  It walks the function's AST itself on plain Python
+    values (ints, bytes, tuples, lists ...): nothing from /repo is imported or executed.  Calls that are not whitelisted
+    builtins / methods of plain values go to `on_call(chain, receiver_or_callee_value, args, kwargs)`; it returns the value or
+    NotImplemented (-> MiniUndecided).  A verdict obtained by evaluating f on ALL values of a finite domain does not depend
+    on how f is spelled, which is the point: the rules that use this state the input/output table, not the syntax.
+    """
+
+    def __init__(self, repo, fi: FuncInfo, on_call=None, fuel: int = 20000) -> None:
+        self.repo = repo
+        self.fi = fi
+        self.on_call = on_call
+        self.fuel0 = fuel
+        self.fuel = fuel
+
+    # ---- entry
+    def __call__(self, *args, **kwargs):
+        self.fuel = self.fuel0
+        env = self._bind(self.fi.node.args, list(args), dict(kwargs))
+        try:
+            self._block(self.fi.node.body, env)
+        except _Ret as r:
+            return r.value
+        except (_Brk, _Cont) as e:
+            raise MiniUndecided(f"{self.fi.qualname}: break/continue outside loop") from e
+        return None
+
+    def _bind(self, a: ast.arguments, args: list, kwargs: dict) -> dict:
+        env = {}
+        pos = [p.arg for p in a.posonlyargs + a.args]
+        defaults = dict(zip(pos[len(pos) - len(a.defaults):], a.defaults))
+        for i, p in enumerate(pos):
+            if i < len(args):
+                env[p] = args[i]
+            elif p in kwargs:
+                env[p] = kwargs.pop(p)
+            elif p in defaults:
+                env[p] = self._ev(defaults[p], {})
+            else:
+                raise MiniUndecided(f"{self.fi.qualname}: no value for parameter {p}")
+        rest = args[len(pos):]
+        if a.vararg is not None:
+            env[a.vararg.arg] = tuple(rest)
+        elif rest:
+            raise MiniRaised(f"{self.fi.qualname}: too many positional arguments")
+        for p, d in zip(a.kwonlyargs, a.kw_defaults):
+            if p.arg in kwargs:
+                env[p.arg] = kwargs.pop(p.arg)
+            elif d is not None:
+                env[p.arg] = self._ev(d, {})
+            else:
+                raise MiniUndecided(f"{self.fi.qualname}: no value for parameter {p.arg}")
+        if a.kwarg is not None:
+            env[a.kwarg.arg] = kwargs
+        elif kwargs:
+            raise MiniRaised(f"{self.fi.qualname}: unexpected keyword arguments {sorted(kwargs)}")
+        return env
+
+    def _tick(self) -> None:
+        self.fuel -= 1
+        if self.fuel < 0:
+            raise MiniUndecided(f"{self.fi.qualname}: evaluation budget exhausted")
+
+    def _py(self, f, *a):
+        try:
+            return f(*a)
+        except (MiniUndecided, MiniRaised, _Ret, _Brk, _Cont):
+            raise
+        except Exception as e:  # noqa: BLE001  (an error of the interpreted operation = the function raises)
+            raise MiniRaised(f"{type(e).__name__}: {e}") from e
+
+    # ---- statements
+    def _block(self, stmts, env) -> None:
+        for s in stmts:
+            self._stmt(s, env)
+
+    def _stmt(self, s, env) -> None:  # noqa: C901, PLR0912
+        self._tick()
+        if isinstance(s, ast.Expr):
+            if not isinstance(s.value, ast.Constant):
+                self._ev(s.value, env)
+        elif isinstance(s, ast.Assign):
+            v = self._ev(s.value, env)
+            for t in s.targets:
+                self._store(t, v, env)
+        elif isinstance(s, ast.AnnAssign):
+            if s.value is not None:
+                self._store(s.target, self._ev(s.value, env), env)
+        elif isinstance(s, ast.AugAssign):
+            if type(s.op) not in _IBIN:
+                raise MiniUndecided(f"operator in `{norm(s)[:50]}`")
+            cur = self._ev(_as_load(s.target), env)
+            val = self._ev(s.value, env)
+            self._plain(cur, s), self._plain(val, s)
+            self._store(s.target, self._py(_IBIN[type(s.op)], cur, val), env)
+        elif isinstance(s, ast.If):
+            self._block(s.body if self._truth(self._ev(s.test, env)) else s.orelse, env)
+        elif isinstance(s, ast.For):
+            broke = False
+            for item in self._iter(self._ev(s.iter, env), s):
+                self._tick()
+                self._store(s.target, item, env)
+                try:
+                    self._block(s.body, env)
+                except _Cont:
+                    continue
+                except _Brk:
+                    broke = True
+                    break
+            if not broke:
+                self._block(s.orelse, env)
+        elif isinstance(s, ast.While):
+            broke = False
+            while self._truth(self._ev(s.test, env)):
+                self._tick()
+                try:
+                    self._block(s.body, env)
+                except _Cont:
+                    continue
+                except _Brk:
+                    broke = True
+                    break
+            if not broke:
+                self._block(s.orelse, env)
+        elif isinstance(s, ast.Return):
+            raise _Ret(self._ev(s.value, env) if s.value is not None else None)
+        elif isinstance(s, ast.Pass):
+            pass
+        elif isinstance(s, ast.Break):
+            raise _Brk
+        elif isinstance(s, ast.Continue):
+            raise _Cont
+        elif isinstance(s, ast.Raise):
+            raise MiniRaised(f"raise {norm(s.exc)[:60] if s.exc is not None else ''}")
+        elif isinstance(s, ast.Assert):
+            if not self._truth(self._ev(s.test, env)):
+                raise MiniRaised("AssertionError")
+        else:
+            raise MiniUndecided(f"{self.fi.qualname}: statement `{norm(s)[:60]}`")
+
+    def _store(self, t, v, env) -> None:
+        if isinstance(t, ast.Name):
+            env[t.id] = v
+        elif isinstance(t, (ast.Tuple, ast.List)):
+            items = list(self._iter(v, t))
+            star = [i for i, e in enumerate(t.elts) if isinstance(e, ast.Starred)]
+            if star:
+                i = star[0]
+                tail = len(t.elts) - i - 1
+                if len(items) < len(t.elts) - 1:
+                    raise MiniRaised("ValueError: not enough values to unpack")
+                parts = items[:i] + [items[i:len(items) - tail]] + items[len(items) - tail:]
+                for e, x in zip(t.elts, parts):
+                    self._store(e.value if isinstance(e, ast.Starred) else e, x, env)
+            else:
+                if len(items) != len(t.elts):
+                    raise MiniRaised(f"ValueError: cannot unpack {len(items)} values into {len(t.elts)} targets")
+                for e, x in zip(t.elts, items):
+                    self._store(e, x, env)
+        elif isinstance(t, ast.Subscript) and not isinstance(t.slice, ast.Slice):
+            base = self._ev(t.value, env)
+            if not isinstance(base, (list, dict)):
+                raise MiniUndecided(f"store into `{norm(t)[:50]}`")
+            self._py(operator.setitem, base, self._ev(t.slice, env), v)
+        elif isinstance(t, ast.Attribute):
+            base = self._ev(t.value, env)
+            if not isinstance(base, Opaque):
+                raise MiniUndecided(f"store into `{norm(t)[:50]}`")
+            base.attrs[t.attr] = v
+        else:
+            raise MiniUndecided(f"assignment target `{norm(t)[:50]}`")
+
+    def _iter(self, v, where):
+        if isinstance(v, (list, tuple, range, dict, set, frozenset, bytes, str)) or type(v).__name__ in ("enumerate", "zip", "reversed", "filter", "map",
+                                                                                                       "list_iterator", "generator", "dict_items",
+                                                                                                       "dict_keys", "dict_values"):
+            return self._py(list, v)
+        raise MiniUndecided(f"iteration over {v!r} in `{norm(where)[:50]}`")
+
+    def _truth(self, v) -> bool:
+        if isinstance(v, Opaque):
+            raise MiniUndecided(f"truth value of {v!r}")
+        return bool(v)
+
+    def _plain(self, v, where) -> None:
+        if not isinstance(v, _PLAIN):
+            raise MiniUndecided(f"arithmetic on {v!r} in `{norm(where)[:50]}`")
+
+    # ---- expressions
+    def _ev(self, e, env):  # noqa: C901, PLR0911, PLR0912
+        self._tick()
+        e = strip_cast(e)
+        if isinstance(e, ast.Constant):
+            return e.value
+        if isinstance(e, ast.Name):
+            if e.id in env:
+                return env[e.id]
+            c = self.repo.resolve_const(self.fi.module, e, self.fi.cls)
+            if c is not NOCONST:
+                return c
+            if e.id in _BUILTINS and _BUILTINS[e.id] is not None:
+                return _BUILTINS[e.id]
+            if e.id in ("True", "False", "None"):
+                return {"True": True, "False": False, "None": None}[e.id]
+            raise MiniUndecided(f"{self.fi.qualname}: unbound name {e.id}")
+        if isinstance(e, ast.Attribute):
+            c = self.repo.resolve_const(self.fi.module, e, self.fi.cls)
+            if c is not NOCONST:
+                return c
+            base = self._ev(e.value, env)
+            if isinstance(base, Opaque) and e.attr in base.attrs:
+                return base.attrs[e.attr]
+            raise MiniUndecided(f"{self.fi.qualname}: attribute `{norm(e)[:50]}`")
+        if isinstance(e, (ast.Tuple, ast.List, ast.Set)):
+            out = []
+            for x in e.elts:
+                if isinstance(x, ast.Starred):
+                    out.extend(self._iter(self._ev(x.value, env), x))
+                else:
+                    out.append(self._ev(x, env))
+            return tuple(out) if isinstance(e, ast.Tuple) else out if isinstance(e, ast.List) else set(out)
+        if isinstance(e, ast.Dict):
+            if any(k is None for k in e.keys):
+                raise MiniUndecided("dict unpacking")
+            return {self._ev(k, env): self._ev(v, env) for k, v in zip(e.keys, e.values)}
+        if isinstance(e, ast.Subscript):
+            base = self._ev(e.value, env)
+            self._plain(base, e)
+            if isinstance(e.slice, ast.Slice):
+                sl = slice(*(self._ev(x, env) if x is not None else None for x in (e.slice.lower, e.slice.upper, e.slice.step)))
+                return self._py(operator.getitem, base, sl)
+            return self._py(operator.getitem, base, self._ev(e.slice, env))
+        if isinstance(e, ast.BinOp):
+            if type(e.op) not in _BIN:
+                raise MiniUndecided(f"operator in `{norm(e)[:50]}`")
+            l, r = self._ev(e.left, env), self._ev(e.right, env)
+            self._plain(l, e), self._plain(r, e)
+            return self._py(_BIN[type(e.op)], l, r)
+        if isinstance(e, ast.UnaryOp):
+            v = self._ev(e.operand, env)
+            if isinstance(e.op, ast.Not):
+                return not self._truth(v)
+            self._plain(v, e)
+            return self._py({ast.USub: operator.neg, ast.UAdd: operator.pos, ast.Invert: operator.invert}[type(e.op)], v)
+        if isinstance(e, ast.BoolOp):
+            v = None
+            for x in e.values:
+                v = self._ev(x, env)
+                if self._truth(v) != isinstance(e.op, ast.And):
+                    return v
+            return v
+        if isinstance(e, ast.Compare):
+            l = self._ev(e.left, env)
+            for op, right in zip(e.ops, e.comparators):
+                r = self._ev(right, env)
+                if not (isinstance(op, (ast.Is, ast.IsNot)) or (isinstance(l, _PLAIN) and isinstance(r, _PLAIN))):
+                    raise MiniUndecided(f"comparison `{norm(e)[:50]}`")
+                if not self._py(_CMP[type(op)], l, r):
+                    return False
+                l = r
+            return True
+        if isinstance(e, ast.IfExp):
+            return self._ev(e.body if self._truth(self._ev(e.test, env)) else e.orelse, env)
+        if isinstance(e, (ast.ListComp, ast.SetComp, ast.GeneratorExp, ast.DictComp)):
+            out = []
+            self._comp(e, 0, dict(env), out)
+            return dict(out) if isinstance(e, ast.DictComp) else set(out) if isinstance(e, ast.SetComp) else out
+        if isinstance(e, ast.Lambda):
+            def fn(*a, _e=e, _env=env):
+                return self._ev(_e.body, {**_env, **self._bind(_e.args, list(a), {})})
+            return fn
+        if isinstance(e, ast.JoinedStr):
+            return "".join(str(self._ev(v.value, env)) if isinstance(v, ast.FormattedValue) else str(v.value) for v in e.values)
+        if isinstance(e, ast.Call):
+            return self._call(e, env)
+        raise MiniUndecided(f"{self.fi.qualname}: expression `{norm(e)[:60]}`")
+
+    def _comp(self, e, i: int, env: dict, out: list) -> None:
+        if i == len(e.generators):
+            out.append((self._ev(e.key, env), self._ev(e.value, env)) if isinstance(e, ast.DictComp) else self._ev(e.elt, env))
+            return
+        g = e.generators[i]
+        if g.is_async:
+            raise MiniUndecided("async comprehension")
+        for item in self._iter(self._ev(g.iter, env), g.iter):
+            self._tick()
+            self._store(g.target, item, env)
+            if all(self._truth(self._ev(c, env)) for c in g.ifs):
+                self._comp(e, i + 1, env, out)
+
+    def _call(self, e: ast.Call, env):
+        args = []
+        for a in e.args:
+            if isinstance(a, ast.Starred):
+                args.extend(self._iter(self._ev(a.value, env), a))
+            else:
+                args.append(self._ev(a, env))
+        if any(k.arg is None for k in e.keywords):
+            raise MiniUndecided("** in call")
+        kwargs = {k.arg: self._ev(k.value, env) for k in e.keywords}
+        name = chain(e.func)
+        # method of a plain value
+        if isinstance(e.func, ast.Attribute):
+            try:
+                base = self._ev(e.func.value, env)
+            except MiniUndecided:
+                base = _NOBASE
+            if base is not _NOBASE and isinstance(base, _PLAIN):
+                ok = any(isinstance(base, t) and e.func.attr in ms for t, ms in _METHODS.items())
+                if not ok:
+                    raise MiniUndecided(f"method `{norm(e.func)[:50]}` of {type(base).__name__}")
+                return self._py(getattr(base, e.func.attr), *args, **kwargs)
+        else:
+            base = _NOBASE
+        if isinstance(e.func, ast.Name) and e.func.id in env:
+            if callable(env[e.func.id]):
+                return self._py(env[e.func.id], *args)
+            base = env[e.func.id]            # a local / parameter that is called (e.g. `cls(...)`): handed to the hook as the callee value
+        if self.on_call is not None:
+            r = self.on_call(name, None if base is _NOBASE else base, args, kwargs)
+            if r is not NotImplemented:
+                return r
+        if name in _BUILTINS and _BUILTINS[name] is not None and not (isinstance(e.func, ast.Name) and e.func.id in env):
+            if name in ("filter", "map", "reduce", "functools.reduce", "sorted", "min", "max") and any(isinstance(a, Opaque) for a in args):
+                raise MiniUndecided(f"call `{norm(e)[:50]}`")
+            r = self._py(_BUILTINS[name], *args, **kwargs)
+            return self._py(list, r) if type(r).__name__ in ("filter", "map", "zip", "enumerate", "reversed") else r
+        raise MiniUndecided(f"{self.fi.qualname}: call `{norm(e)[:60]}`")
+
+
+_NOBASE = object()
+
+
+def _as_load(t):
+    import copy
+    t2 = copy.copy(t)
+    t2.ctx = ast.Load()
+    return t2
+
+
+def struct_hooks(name, base, args, kwargs):
+    """on_call hook: the struct module on concrete values (trusted stdlib semantics)."""
+    if name in ("pack", "struct.pack") and args and isinstance(args[0], str) and all(isinstance(a, (int, bytes, bool)) for a in args[1:]):
+        try:
+            return struct.pack(*args)
+        except struct.error as e:
+            raise MiniRaised(f"struct.error: {e}") from e
+    if name in ("unpack_from", "struct.unpack_from") and len(args) >= 2 and isinstance(args[0], str) and isinstance(args[1], bytes):
+        off = args[2] if len(args) > 2 else kwargs.get("offset", 0)
+        try:
+            return struct.unpack_from(args[0], args[1], off)
+        except struct.error as e:
+            raise MiniRaised(f"struct.error: {e}") from e
+    if name in ("unpack", "struct.unpack") and len(args) == 2 and isinstance(args[0], str) and isinstance(args[1], bytes):
+        try:
+            return struct.unpack(*args)
+        except struct.error as e:
+            raise MiniRaised(f"struct.error: {e}") from e
+    if name in ("calcsize", "struct.calcsize") and len(args) == 1 and isinstance(args[0], str):
+        return struct.calcsize(args[0])
+    return NotImplemented
